@@ -48,6 +48,10 @@ type opJ struct {
 	P    string `json:"p,omitempty"` // idle before after midcfg
 	V    int    `json:"v,omitempty"` // store: -1 absent, 0 empty string, n>0 foreign id n
 	S    int    `json:"s,omitempty"` // mstate, hold: numeric mesos.TaskState
+	// reconnect, crash: the reconciliation that follows the (re)subscription is lost - "drop" (the
+	// connection drops before any answer), "partial" (after the first answer), "fail" (the RECONCILE
+	// call itself fails) - and the core re-subscribes by itself
+	Lost string `json:"lost,omitempty"`
 }
 
 type inputJ struct {
@@ -641,9 +645,13 @@ func (r *runner) apply(i int, op opJ) error {
 		}
 	case "reconnect":
 		from := len(r.s.CallsSnapshot())
+		simcore.LoseNextReconcile(op.Lost)
 		r.s.Reconnect()
 		if !r.waitCalls(from, subscribed) {
 			return fmt.Errorf("reconnect: the core did not subscribe again")
+		}
+		if op.Lost != "" {
+			r.awaitResubscription(from)
 		}
 		// the implicit reconciliation normally follows at once; its absence is observed, not an error
 		simcore.WaitFor(500*time.Millisecond, func() bool { return subscribedAndReconciled(r.s.CallsSnapshot()[from:]) })
@@ -689,13 +697,52 @@ func (r *runner) apply(i int, op opJ) error {
 			}
 			r.settle()
 		}
+		from := len(r.s.CallsSnapshot())
+		simcore.LoseNextReconcile(op.Lost)
 		if err := r.crash(); err != nil {
 			return err
+		}
+		if op.Lost != "" {
+			r.awaitResubscription(from)
 		}
 	default:
 		return fmt.Errorf("unknown op %q", op.Op)
 	}
 	return nil
+}
+
+// awaitResubscription: the armed fault ends the event stream once the RECONCILE of the first
+// subscription has gone out; the controller subscribes a second time by itself.  (A core that
+// sends no RECONCILE never trips the fault: after a few seconds it is disarmed and the state is
+// sampled as it is.)
+func (r *runner) awaitResubscription(from int) {
+	ok := simcore.WaitFor(4*time.Second, func() bool {
+		n := 0
+		for _, c := range r.s.CallsSnapshot()[from:] {
+			if c.Type == "SUBSCRIBE" {
+				n++
+			}
+		}
+		return n >= 2
+	})
+	simcore.LoseNextReconcile("")
+	if ok {
+		simcore.WaitFor(500*time.Millisecond, func() bool {
+			cs := r.s.CallsSnapshot()[from:]
+			last := -1
+			for i, c := range cs {
+				if c.Type == "SUBSCRIBE" {
+					last = i
+				}
+			}
+			for _, c := range cs[last+1:] {
+				if c.Type == "RECONCILE" {
+					return true
+				}
+			}
+			return false
+		})
+	}
 }
 
 func (r *runner) envListed(id uid.ID) bool {
@@ -841,9 +888,15 @@ func opTerm(o opJ, keepEff bool) string {
 		}
 		return fmt.Sprintf("OStoreSet (Some %d)", v)
 	case "reconnect":
+		if o.Lost != "" {
+			return "OReconnectLost"
+		}
 		return "OReconnect"
 	case "crash":
 		p := map[string]string{"": "PIdle", "idle": "PIdle", "before": "PBeforeLaunch", "after": "PAfterLaunch", "midcfg": "PMidConfigure"}[o.P]
+		if o.Lost != "" {
+			return fmt.Sprintf("OCrashLost %s %d", p, o.K)
+		}
 		return fmt.Sprintf("OCrash %s %d", p, o.K)
 	}
 	return "OStart 0"
@@ -898,8 +951,16 @@ func corpus() []inputJ {
 	mk := func(k int) opJ { return opJ{Op: "create", K: k} }
 	hold := func(k, s int) opJ { return opJ{Op: "hold", K: k, S: s} }
 	run := func(t int) opJ { return opJ{Op: "run", T: t} }
+	crl := func(p string, k int, lost string) opJ { return opJ{Op: "crash", P: p, K: k, Lost: lost} }
 	return []inputJ{
 		c(mk(1), op("reconnect")), // C18-a regression witness: the task must survive
+		// the reconciliation of a (re)subscription is lost and must be repeated by the next one:
+		c(mk(2), crl("idle", 0, "drop")),                         // restart, connection drops before any answer
+		c(mk(2), opJ{Op: "start", E: 0}, crl("idle", 0, "fail")), // restart, the RECONCILE call itself fails
+		c(crl("after", 3, "partial")),                            // restart after the launch, one answer delivered
+		c(hold(2, 6), crl("idle", 0, "drop")),                    // restart in the launch window
+		c(mk(1), opJ{Op: "reconnect", Lost: "drop"}),             // reconnection: the owned task is spared twice
+		c(mk(2), opJ{Op: "stuck", E: 0}, mk(1), opJ{Op: "reconnect", Lost: "partial"}),
 		// roster tasks of a live environment that are not ACTIVE while the master has them alive
 		// (the reconciliation rule spares what is in the roster, whatever its status):
 		c(hold(2, 6), op("reconnect"), run(0), run(1)),                             // launch window, tasks STAGING at the master
@@ -1030,7 +1091,11 @@ func genScript(r *gen.Rand) inputJ {
 		case x < 65 && tamper:
 			in.Ops = append(in.Ops, opJ{Op: "store", V: r.Range(-1, 2)})
 		case x < 80:
-			in.Ops = append(in.Ops, op("reconnect"))
+			o := op("reconnect")
+			if r.Chance(1, 6) {
+				o.Lost = r.Pick([]string{"drop", "partial", "fail"})
+			}
+			in.Ops = append(in.Ops, o)
 		default:
 			p := r.Pick([]string{"idle", "idle", "before", "after", "midcfg"})
 			k := 0
@@ -1041,7 +1106,11 @@ func genScript(r *gen.Rand) inputJ {
 					tasks += k
 				}
 			}
-			in.Ops = append(in.Ops, opJ{Op: "crash", P: p, K: k})
+			o := opJ{Op: "crash", P: p, K: k}
+			if r.Chance(1, 3) {
+				o.Lost = r.Pick([]string{"drop", "partial", "fail"})
+			}
+			in.Ops = append(in.Ops, o)
 		}
 	}
 	return in
